@@ -2,7 +2,7 @@
    the implementation's f64 result must lie in the model's rigorous enclosure widened by the
    case's tolerance; decisions that the enclosure cannot settle are reported as ambiguous. *)
 From Coq Require Import ZArith List Bool.
-From A5 Require Import Num.NumOps Num.IvInst Num.Derived Geo.Authalic Geo.Sphere Geo.Tiling Geo.Projection.
+From A5 Require Import Base.Outcome Num.NumOps Num.IvInst Num.Derived Id.Codec Geo.Authalic Geo.Sphere Geo.Tiling Geo.Projection Geo.Cell.
 From A5 Require Export Corr.Lit.
 Import ListNotations.
 Open Scope Z_scope.
@@ -19,7 +19,33 @@ Inductive gcase :=
 (* DodecahedronProjection::forward(theta, phi, origin) -> face point *)
 | GDodecFwd (theta phi : dyv) (origin : Z) (ex ey tol : dyv)
 (* DodecahedronProjection::inverse(x, y, origin) -> unit vector of the result *)
-| GDodecInv (x y : dyv) (origin : Z) (cx cy cz tol : dyv).
+| GDodecInv (x y : dyv) (origin : Z) (cx cy cz tol : dyv)
+(* lonlat_to_cell(lon, lat, res) -> Ok id (e >= 0) or Err (e = -1) *)
+| GLookup (lon lat : dyv) (res : Z) (e : Z)
+(* cell_to_lonlat(id) -> (lon, lat) *)
+| GCentre (id : Z) (lon lat tol : dyv)
+(* cell_to_boundary(id, segments): the implementation's ring with the closing point removed and the
+   order reversed back to pentagon order; longitudes are compared modulo 360 *)
+| GBoundary (id : Z) (segments : option Z) (pts : list (dyv * dyv)) (tol : dyv)
+(* a5cell_contains_point(cell of id, lon, lat) > 0 ? *)
+| GContains (id : Z) (lon lat : dyv) (e : bool).
+
+(* inputs of lookups are widened by a few ulps (2^-43 degrees = 2e-15 rad): a decision that flips under
+   such a perturbation is within the rounding noise of the f64 implementation and is reported as
+   ambiguous instead of being compared *)
+Definition widen (a : iv) : iv :=
+  let w := F.scale2 (F.fromZ 1) (F.ZtoS (-43)) in
+  I.add prec a (I.bnd (F.neg w) w).
+
+Definition lon_close (m : iv) (e tol : dyv) : bool :=
+  existsb (fun k => iv_contains_dy (I.add prec m (iv_ofZ (360 * k))) e tol) [0; 1; -1; 2; -2]%Z.
+
+Fixpoint pts_close (l : list (iv * iv)) (e : list (dyv * dyv)) (tol : dyv) : bool :=
+  match l, e with
+  | [], [] => true
+  | (lo, la) :: ls, (elo, ela) :: es => lon_close lo elo tol && iv_contains_dy la ela tol && pts_close ls es tol
+  | _, _ => false
+  end.
 
 (* verdict: 0 = agree, 1 = mismatch, 2 = ambiguous (enclosure straddles a decision) *)
 Definition gcheck (c : gcase) : Z :=
@@ -51,6 +77,38 @@ Definition gcheck (c : gcase) : Z :=
           let '(vx, vy, vz) := to_cartesian IvInst t p in
           if iv_contains_dy vx cx tol && iv_contains_dy vy cy tol && iv_contains_dy vz cz tol then 0 else 1
       | None => 2
+      end
+  | GLookup lon lat res e =>
+      match lonlat_to_cell IvInst (widen (D lon)) (widen (D lat)) res with
+      | Some (Ok id) => if id =? e then 0 else 1
+      | Some Err => if e =? -1 then 0 else 1
+      | Some _ => 1
+      | None => 2
+      end
+  | GCentre id lon lat tol =>
+      match cell_to_lonlat IvInst id with
+      | Some (Ok (lo, la)) => if lon_close lo lon tol && iv_contains_dy la lat tol then 0 else 1
+      | Some _ => 1
+      | None => 2
+      end
+  | GBoundary id segments pts tol =>
+      match cell_boundary_raw IvInst id segments with
+      | Some (Ok l) => if pts_close l pts tol then 0 else 1
+      | Some _ => 1
+      | None => 2
+      end
+  | GContains id lon lat e =>
+      match deserialize id with
+      | Ok c =>
+          match cell_contains_point IvInst c (widen (D lon)) (widen (D lat)) with
+          | Some d =>
+              match iv_ltb (iv_ofZ 0) d with
+              | Some b => if Bool.eqb b e then 0 else 1
+              | None => 2
+              end
+          | None => 2
+          end
+      | _ => 1
       end
   end.
 
